@@ -190,7 +190,7 @@ func cmd1(c *Ctx) {
 		writes = append(writes, write{cv, varargElems(cv.Call.Args[len(cv.Call.Args)-1])})
 	}
 	n := 0
-	for _, r := range ir.Returns(fn) {
+	for _, r := range ir.ReturnPoints(fn) {
 		v := r.Results[0]
 		if ir.IsNilConst(v) {
 			continue
@@ -229,7 +229,7 @@ func cmd1(c *Ctx) {
 			for _, call := range ir.Calls(fn) {
 				cv, ok := call.(*ssa.Call)
 				if ok && ir.Static(cv) == policy && cv.Call.Args[0] == ssa.Value(recv) && cv.Call.Args[1] == v {
-					if ir.MustPassBefore(r, func(in ssa.Instruction) bool { return in == ssa.Instruction(cv) }) {
+					if ir.MustPassBefore(r.Anchor(), func(in ssa.Instruction) bool { return in == ssa.Instruction(cv) }) {
 						pcall = cv
 					}
 				}
@@ -237,7 +237,7 @@ func cmd1(c *Ctx) {
 			if pcall == nil {
 				problems = append(problems, "the error is returned without the policy switch having been called with it on the rejecting command")
 			}
-			anchor := ssa.Instruction(r)
+			anchor := r.Anchor()
 			if pcall != nil {
 				anchor = pcall
 			}
@@ -321,7 +321,7 @@ func cmd1(c *Ctx) {
 				ok, why = false, "defers a call: results may be rewritten after the dispatch returned"
 			}
 		})
-		for _, r := range ir.Returns(f) {
+		for _, r := range ir.ReturnPoints(f) {
 			v := r.Results[0]
 			if ir.IsNilConst(v) {
 				continue
@@ -666,7 +666,7 @@ func cmd3(c *Ctx) {
 			okArgs = true
 		}
 	}
-	c.Check(okArgs && h.Call.Args[0] == ssa.Value(recv), Q(fn)+":scan-first", h.Pos(), "the help scan runs first, on the remaining arguments of this level", "the help scan is not applied to this level's remaining arguments")
+	c.Check(okArgs && (scan.Signature.Recv() == nil || h.Call.Args[0] == ssa.Value(recv)), Q(fn)+":scan-first", h.Pos(), "the help scan runs first, on the remaining arguments of this level", "the help scan is not applied to this level's remaining arguments")
 	// "found" predicate: h >= 0 (or variants)
 	foundAt := func(b *ssa.BasicBlock, want bool) bool {
 		for _, u := range *h.Referrers() {
@@ -815,7 +815,7 @@ func cmd4(c *Ctx) {
 	// (a) returns the index for -h / --help only
 	okIdx, sawIdx := true, false
 	why = ""
-	for _, r := range ir.Returns(fn) {
+	for _, r := range ir.ReturnPoints(fn) {
 		v := r.Results[0]
 		if k, isK := ir.ConstInt(v); isK {
 			if k != -1 {
@@ -1046,30 +1046,27 @@ func cmd5(c *Ctx) {
 	if inline {
 		okTest = checkFirstCall(fn, test, ssa.Value(args))
 	}
-	for _, r := range ir.Returns(vt) {
-		if inline {
-			break
-		}
-		phi, isPhi := r.Results[0].(*ssa.Phi)
-		if !isPhi || len(phi.Edges) != 2 {
-			continue
-		}
+	{
+		// the verdicts: false, or the first-item call
 		var callEdge *ssa.Call
-		falseEdge := false
-		for _, e := range phi.Edges {
-			if b, isC := ir.ConstBool(e); isC && !b {
+		falseEdge, other := false, false
+		for _, r := range ir.ReturnPoints(vt) {
+			if b, isC := ir.ConstBool(r.Results[0]); isC && !b {
 				falseEdge = true
-			} else if cv, isCall := e.(*ssa.Call); isCall {
+			} else if cv, isCall := r.Results[0].(*ssa.Call); isCall && callEdge == nil {
 				callEdge = cv
+			} else {
+				other = true
 			}
 		}
-		if !falseEdge || callEdge == nil {
-			continue
+		if inline || other || !falseEdge || callEdge == nil {
+			goto doneTest
 		}
 		if len(vt.Params) >= 2 && checkFirstCall(vt, callEdge, ssa.Value(vt.Params[1])) {
 			okTest = true
 		}
 	}
+doneTest:
 	testKey := Q(vt)
 	if inline {
 		testKey = Q(fn) + ":version-test"
@@ -1176,7 +1173,7 @@ func cmd5first(c *Ctx, fn *ssa.Function) {
 			}
 		}
 	})
-	for _, r := range ir.Returns(fn) {
+	for _, r := range ir.ReturnPoints(fn) {
 		b, isC := ir.ConstBool(r.Results[0])
 		if !isC {
 			problems = append(problems, "non-constant verdict")
@@ -1606,7 +1603,7 @@ func cmd7(c *Ctx) {
 			}
 		}
 	}
-	for _, r := range ir.Returns(fn) {
+	for _, r := range ir.ReturnPoints(fn) {
 		if lc, isCall := r.Results[0].(*ssa.Call); isCall && hdr.Succs[1] != nil {
 			if bi, isB := lc.Call.Value.(*ssa.Builtin); isB && bi.Name() == "len" && lc.Call.Args[0] == ssa.Value(args) {
 				// after the scan is exhausted the count is len(args)
@@ -1672,7 +1669,7 @@ func cmd7(c *Ctx) {
 		ok := true
 		why := ""
 		sawTrue := false
-		for _, r := range ir.Returns(ia) {
+		for _, r := range ir.ReturnPoints(ia) {
 			b, isC := ir.ConstBool(r.Results[0])
 			if !isC {
 				ok, why = false, "non-constant verdict"
@@ -2139,7 +2136,7 @@ func cmd10(c *Ctx) {
 				continue
 			}
 			ret := false
-			for _, r := range ir.Returns(fn) {
+			for _, r := range ir.ReturnPoints(fn) {
 				if r.Results[0] == e && errIsNonNilAt(e, r.Block()) {
 					ret = true
 				}
